@@ -28,6 +28,12 @@ CHECKS = {
  "C06": ("exploration", "differential against an independent UBJSON draft-12 decoder",
    "Foreign UBJSON values with every marker, every length marker and nested optimized containers are parsed by the real parser and compared with the harness' own draft-12 decoder.",
    "Trusts the harness' refubj decoder; spec-ambiguous no-op placements are not generated.", "4.C06"),
+ "C07": ("exploration", "differential: real encoders vs independent reference decoders + byte-level JSON scanners",
+   "Streams with every extended event, every byte value in strings, all integer boundaries and float classes are written by the real encoders under every option; independent decoders must read back exactly the stream's value and byte-level scanners check the JSON-specific obligations.",
+   "Trusts the reference decoders and the harness' JSON token scanner.", "4.C07"),
+ "C08": ("exploration", "end-to-end differential over all 9 parser->encoder pipes, chunked readers and decoder loops, contract monitor in the pipe",
+   "Foreign and own source documents (single and concatenated streams) are piped through the real parser and encoder of every pair under varied read schedules; reference decoders on both ends decide equality, also against decode-then-re-encode and the library's own target parser.",
+   "Trusts the reference decoders on both sides; skips sources outside the common subset (covered by C04-C06).", "4.C08"),
 }
 
 NOT_YET = {
